@@ -1,0 +1,26 @@
+//! Verification-only schedule points (compiled only with `--cfg similari_verif`).
+//!
+//! A process-global, normally empty callback that the library invokes at a few
+//! pre-emption points of its worker threads (never while a store / shard / monitor
+//! lock is held). A verification harness may install a callback that records,
+//! delays or gates the calling thread.
+
+use std::sync::{Arc, RwLock};
+
+pub type SchedCallback = Arc<dyn Fn(&'static str, u64) + Send + Sync + 'static>;
+
+static CALLBACK: RwLock<Option<SchedCallback>> = RwLock::new(None);
+
+/// Installs (or removes, with `None`) the process-global callback.
+pub fn set_callback(cb: Option<SchedCallback>) {
+    *CALLBACK.write().unwrap() = cb;
+}
+
+/// Invoked by the library at a schedule point.
+#[inline]
+pub fn sched_point(site: &'static str, arg: u64) {
+    let cb = CALLBACK.read().unwrap().clone();
+    if let Some(cb) = cb {
+        cb(site, arg);
+    }
+}
